@@ -82,12 +82,16 @@ AddOne(o, x) ==
              ELSE \* :255-268 first heap block, capacity count*2, copy 3 handles, flag set
                   [o EXCEPT !.h = Append(@, x), !.heap = TRUE, !.cap = 2 * n]
 
-(* add() of every element of s in order: resulting object .o and number .a of new[] executed *)
+(* add() of every element of s in order: resulting object .o and number .a of new[] executed
+   (split in halves only to keep TLC's evaluation stack shallow for long s) *)
+RECURSIVE AddRun(_, _)
 AddRun(o, s) ==
-    LET F[k \in 0..Len(s)] == IF k = 0 THEN [o |-> o, a |-> 0]
-                                       ELSE LET p == F[k - 1]
-                                            IN [o |-> AddOne(p.o, s[k]), a |-> p.a + B2N(Full(p.o))]
-    IN F[Len(s)]
+    IF s = <<>> THEN [o |-> o, a |-> 0]
+    ELSE IF Len(s) = 1 THEN [o |-> AddOne(o, s[1]), a |-> B2N(Full(o))]
+    ELSE LET m == Len(s) \div 2
+             l == AddRun(o, SubSeq(s, 1, m))
+             r == AddRun(l.o, SubSeq(s, m + 1, Len(s)))
+         IN [o |-> r.o, a |-> l.a + r.a]
 
 (* _count_flag = 0 without touching the block: clear_internal after its delete[] (:218-223), the
    source of operator<< (:77) and of the move constructor (:61) *)
